@@ -60,7 +60,7 @@ func (ups *Socket) Connect(manager cert.TlsConfig, mustSecure bool) error {
 	log.Debugf("[Client] Socket upstream connection established to %v", ups.Address.String())
 	cert.PrintPeerCertificates(c)
 
-	cc, err := socketace.NewClientConnection(c, manager, secure, ups.Address.Host)
+	cc, err := socketace.NewClientConnection(c, manager, secure, ups.Address.Hostname())
 	if err != nil {
 		return errors.Wrapf(err, "Could not open connection")
 	} else if mustSecure && !cc.Secure() {
